@@ -135,6 +135,11 @@ def plan(seed, tier="quick", index=0):
         op["msg"] = rng.choice(msgs) if rng.random() < 0.5 else rng.getrandbits(256).to_bytes(32, "big").hex()
         if mode == "raw":
             op["digest"] = hex(rng.choice([0, 1, N - 1, N, N + 1, 2**256 - 1, rng.getrandbits(256), rng.getrandbits(256)]))
+        elif rng.random() < 0.12:
+            # a message that already ends in the 4 bytes of a sighash flag (e.g. a legacy
+            # transaction with nLockTime = 1 signed with SIGHASH_ALL): the flag is still appended
+            tail = rng.choice([op["flag"], op["flag"], 1, 0x81]).to_bytes(4, "little")
+            op["msg"] = (bytes.fromhex(op["msg"]) + tail).hex()
         if kind == "boundary-draws":
             pre = rng.choice([[], ["ZERO"], ["ZERO", "ZERO"], ["ZERO"] * rng.randrange(3, 7)])
             op["tape"] = pre + [rng.choice(["ONE", "BOUND-1", "BOUND-2", "MID", None])]
